@@ -194,7 +194,8 @@ func (R *Repository) createTempFile() (string, error) {
 }
 
 func (R *Repository) IsRevoked(certificate *x509.Certificate, locations *core.CRLLocations) (*core.RevocationStatus, error) {
-	if locations != nil {
+	//In non strict mode the inability to use the CDP locations must never deny the certificate
+	if locations != nil && R.crlConfig.CDPConfig.CRLCDPStrict {
 		loader, err := R.crlLoaderFactory.CreatePreferredCrlLoader(locations, R.logger)
 		if err != nil {
 			return nil, err
@@ -204,7 +205,7 @@ func (R *Repository) IsRevoked(certificate *x509.Certificate, locations *core.CR
 			return nil, err
 		}
 		//In strict mode enforce CDP CRL is loaded otherwise abort
-		if R.crlConfig.CDPConfig.CRLCDPStrict && R.isEntryPresentAndLoaded(identifier) == false {
+		if R.isEntryPresentAndLoaded(identifier) == false {
 			return nil, fmt.Errorf("CRL defined in CDP was not loaded")
 		}
 	}
